@@ -41,7 +41,7 @@ TARGETS = [
 ]
 
 CMDS = {"Start", "PrepOk", "PrepFail", "Done", "ExecReply", "Evict", "Forget", "Cancel"}
-RES = {"ok": "ok", "err_prepare": "prepare", "err_arity": "arity", "err_ctx": "ctx", "none": "none"}
+RES = {"ok": "ok", "err_prepare": "prepare", "err_arity": "arity", "err_ctx": "ctx", "err_unprepared": "unprepared", "none": "none"}
 KS = {"k1": "ks1", "k2": "ks2"}
 
 KEYS = {
@@ -56,7 +56,7 @@ KEYS = {
     "ExecWrongStatement": ("exec-wrong-statement", "EXECUTE/BATCH sent with the id of a different statement"),
     "ArityNotChecked": ("arity-not-checked", "a wrong number of bound values was sent instead of being reported"),
     "UnpreparedNotReprepared": ("unprepared-not-reprepared", "an id the node rejected twice as UNPREPARED was sent a third time: the driver does not prepare again"),
-    "UnpreparedNotRecovered": ("unprepared-not-recovered", "UNPREPARED was returned to the caller instead of preparing again"),
+    "UnpreparedNotRecovered": ("unprepared-not-recovered", "UNPREPARED was returned to the caller after at most two UNPREPARED answers in a row instead of preparing again"),
     "ResultMetaMismatch": ("result-meta-mismatch", "rows were decoded with result metadata that does not belong to the executed id"),
     "BindMetaMismatch": ("bind-meta-mismatch", "a binding callback was handed the id / bind metadata of another statement"),
     "CapExceeded": ("cap-exceeded", "the prepared-statement cache exceeded its configured size"),
@@ -69,7 +69,7 @@ def _write_cfg(ctx, name, spec, ex, lru, fg, fl, canc, uniq, plans, prop="", inv
     d = vf._scratch_spec_dir(ctx, "w")
     with open(os.path.join(d, name), "w") as f:
         f.write("SPECIFICATION %s\nCONSTANTS\n  Execs = %s\n  Arity <- MCArity\n  MaxLRU = %s\n  MaxForget = %s\n"
-                "  MaxFail = %s\n  Cancellable = %s\n  UniqueIds = %s\n  Plans <- %s\n" % (spec, ex, lru, fg, fl, canc, uniq, plans))
+                "  MaxFail = %s\n  Cancellable = %s\n  MaxReprepare = 3\n  UniqueIds = %s\n  Plans <- %s\n" % (spec, ex, lru, fg, fl, canc, uniq, plans))
         if inv:
             f.write("INVARIANTS %s\n" % inv)
         if prop:
